@@ -4,9 +4,13 @@
 package rpc
 
 import (
+	"errors"
 	"fmt"
 	"github.com/hslam/code"
 )
+
+// errMalformedHeader is returned when a header cannot be decoded.
+var errMalformedHeader = errors.New("rpc: malformed header")
 
 type pbRequest struct {
 	Seq           uint64
@@ -120,7 +124,12 @@ func (req *pbRequest) MarshalTo(buf []byte) (int, error) {
 }
 
 // Unmarshal unmarshals from data.
-func (req *pbRequest) Unmarshal(data []byte) error {
+func (req *pbRequest) Unmarshal(data []byte) (err error) {
+	defer func() {
+		if recover() != nil {
+			err = errMalformedHeader
+		}
+	}()
 	var length = uint64(len(data))
 	var offset uint64
 	var n uint64
@@ -257,7 +266,12 @@ func (res *pbResponse) MarshalTo(buf []byte) (int, error) {
 }
 
 // Unmarshal unmarshals from data.
-func (res *pbResponse) Unmarshal(data []byte) error {
+func (res *pbResponse) Unmarshal(data []byte) (err error) {
+	defer func() {
+		if recover() != nil {
+			err = errMalformedHeader
+		}
+	}()
 	var length = uint64(len(data))
 	var offset uint64
 	var n uint64
